@@ -1,6 +1,6 @@
-\* smoke: four hand-picked programs
+\* four programs, no export
 CONSTANTS ArgPrint = "decimal" StrEscape = "dec3" RecursionGuard = TRUE ArgParen = TRUE WholeIdent = TRUE
-          Level = 3 MaxDefs = 2 EmitCases = FALSE ExcludeKnown = TRUE
+          Level = 0 MaxDefs = 3 EmitCases = FALSE ExcludeKnown = TRUE
 SPECIFICATION Spec
-INVARIANTS Agreement DefAgreement TokenRoundTrip Emit
+INVARIANTS Agreement DefAgreement TokenRoundTrip
 CHECK_DEADLOCK FALSE
